@@ -201,12 +201,17 @@ CLAIMED = {
         "events with absolute ticks are the music laid end to end from tick 0; entries/bars/passes_balanced (no note hangs or "
         "overlaps itself when an entry's notes are distinct); sigs_specBars + keyEv_table (30 keys, kernel) + tick_table (values "
         "1..128 in IEEE doubles, kernel); instrEvs_specEntries (one bank select + program change on the first sounding note's "
-        "channel, immediately before it). Tie A: every statement of MidiTrack, MidiFile and write_*, constants. Tie B: bytes "
+        "channel, immediately before it); entry_tempo_refines (C16Tempo.lean: an entry whose container carries a tempo b >= 4 "
+        "writes first the tempo event 60000000 div b WITH THE ACCUMULATED REST AS ITS DELTA, then exactly what the same entry "
+        "without a tempo writes after no rest - the statement the unrepaired code violated), rest_tempo_silent. Tie A: every "
+        "statement of MidiTrack, MidiFile and write_*, constants. Tie B: bytes "
         "of real files vs the model, decoded by an independent Python SMF reader.",
    note=TRUST + "Float log in int_to_varbyte / time_signature_event is modelled by the exact integer logarithm (tied by the "
-        "correspondence over all boundaries); mid-bar tempo changes (a bpm attribute on a container) are not modelled; the 2^32 "
-        "chunk-size and 2^16 track-count bounds are hypotheses of composition_parses. Four defects repaired by fix: commits "
-        "(259d7c9 key signature, adb3a11 bank select, a56fb57 tripled leading rest, fc6c3a8 trailing rest lost on repeat).",
+        "correspondence over all boundaries); the track-level theorems (denotation, balance, parse-back) are stated for music "
+        "without mid-bar tempo changes, the tempo-carrying entry has its own refinement theorem and is compared byte for byte; "
+        "the 2^32 chunk-size and 2^16 track-count bounds are hypotheses of composition_parses. Five defects repaired by fix: "
+        "commits (259d7c9 key signature, adb3a11 bank select, a56fb57 tripled leading rest, fc6c3a8 trailing rest lost on "
+        "repeat, ed36e72 rest before a tempo-changing container dropped).",
    design="§4 C16"),
  "C17": dict(
    text="Hand model of midi_file_in.MidiFile in two layers, as in the code: the byte parsers reading one stream, and "
